@@ -57,6 +57,26 @@ def run(ctx, chk):
                            "counter's result (status OK) or 0 / that same result (otherwise)")
     chk.rule("C16.reach", "cbor_build_string / cbor_build_stringn / the decoder's string callback attach the copied buffer "
                           "with the same length; decoding never tests the unicode status")
+    # ---- whatever the validator is built from, the counting routine must be able to say "not UTF-8"
+    chk.rule("C16.can-reject", "_cbor_unicode_codepoint_count has a path that stores a status other than OK and returns 0, and every "
+                               "path that returns with status OK has examined its input through a validating step (a call or table "
+                               "lookup whose result decides an exit): a routine that reports OK for every byte string counts "
+                               "ill-formed text")
+    cc = prog.fn("_cbor_unicode_codepoint_count")
+    sti = cc.param_index("status")
+    ok_v = prog.enum("_cbor_unicode_status_error")["_CBOR_UNICODE_OK"]
+    st_off = prog.field_offset("_cbor_unicode_status", "status")
+    import ownership as _O16
+    cpaths = P.Executor(prog, eff, loop_bound=2, inline=_O16.static_callees(prog, eff, cc.name)).run(cc.name)
+    rejecting = 0
+    for pa in cpaths:
+        v = pa.st.load(P.mkptr(("arg", sti), st_off), "i32", None) if pa.st.is_defined(P.mkptr(("arg", sti), st_off), 4) else None
+        if v is not None and P.is_const(v) and v[1] != ok_v and pa.ret == ("c", 0):
+            rejecting += 1
+    chk.ob("C16.can-reject", "%s has %d rejecting path(s) (status != OK, result 0) among %d" % (cc.name, rejecting, len(cpaths)), rejecting >= 1,
+           "%s:%d" % (cc.file, cc.line), fn=cc.name, key="can-reject",
+           detail="" if rejecting else "every path leaves status OK: ill-formed UTF-8 is counted instead of yielding 0")
+    chk.floor("C16.can-reject", "paths of the counting routine", len(cpaths), 3)
     f = prog.fn("_cbor_unicode_decode")
     g = prog.global_for(f, "utf8d")
     if g is None or not isinstance(g.get("init_val"), Agg):
